@@ -778,6 +778,17 @@ class TrajectoryStore:
                             'not in the species dimension of the NetCDF file'
                         )
 
+        # Before the NetCDF files are created (on the first addition), the
+        # trajectory must at least carry the field sets that were declared for
+        # the associated files.
+        if self._file_creation_pending:
+            missing_fs = self.associated_fieldsets - set(trajectory._fieldsets)
+            if missing_fs:
+                raise ValueError(
+                    f'Trajectory to be added lacks the field sets {sorted(missing_fs)} '
+                    'declared for the associated files'
+                )
+
         if self.indexable is None:
             self.indexable = has_flight_id
 
